@@ -131,6 +131,36 @@ def set_members(st, frame):
     return V.dom_of(V.Val.a(inner))
 
 
+def add_set_dynamic(pack):
+    """the contract of Var.set_dynamic (also proved in the C10 pack, where Var.intern relies on it)"""
+    rt = _cls()
+    Var = rt.Var
+    # ------------------------------------------------------------------ Var.set_dynamic: what re-evaluating a `def` does to bindings
+    # (`def` on an existing Var calls set_dynamic with the flag the new definition carries.)  A Var that stays dynamic keeps
+    # its thread-local state - every thread's binding stack - untouched; only a real change of the flag replaces it.
+    c = pack.contract("basilisp.lang.runtime:Var.set_dynamic")
+    c.param("self", OBJ(Var)).param("dynamic", T(lambda v: V.is_bool(v), None, "bool"))
+    c.setup(setup)
+    c.requires("the Var is well-typed", lambda a: wf_var(a.eng, a.pre.st, a.self))
+    c.raises()
+
+    def sd_post(a):
+        pre, post = a.pre.st, a.post.st
+        same = a.dynamic == z3.Select(pre.field_array("_dynamic"), V.Val.a(a.self))
+        tl1 = tl_of(post, a.self)
+        unchanged = z3.And(tl1 == tl_of(pre, a.self), z3.Select(post.field_array("_dynamic"), V.Val.a(a.self)) == z3.Select(pre.field_array("_dynamic"), V.Val.a(a.self)),
+                           post.lists == pre.lists, post.field_array("bindings") == pre.field_array("bindings"))
+        changed = z3.And(z3.Select(post.field_array("_dynamic"), V.Val.a(a.self)) == a.dynamic,
+                         z3.If(V.Val.b(a.dynamic), z3.And(V.is_ref(tl1), V.Val.a(tl1) > 0, z3.Length(stack(post, post, a.self)) == 0), V.is_none(tl1)))
+        return z3.If(same, unchanged, changed)
+
+    c.ensures("re-declaring a Var with the dynamic flag it already has changes nothing: the thread-local bindings of every thread stay (a Var re-defined while bound is "
+              "still bound); a real change of the flag gives a dynamic Var a new, empty thread-local state and removes it from a Var that is no longer dynamic", sd_post)
+    c.replay(lambda m, ctx, ob: SET_REPLAY)
+    c.replay_without_model = True
+
+
+
 def build(active_known=frozenset()):
     rt = _cls()
     from basilisp.lang.map import PersistentMap
@@ -220,6 +250,8 @@ def build(active_known=frozenset()):
     c.ensures("reading a Var gives its innermost thread-local binding when it is dynamic and bound in this thread, and its root otherwise", value_post)
     c.replay(lambda m, ctx, ob: SET_REPLAY)
     c.replay_without_model = True
+
+    add_set_dynamic(pack)
 
     # ------------------------------------------------------------------ push_thread_bindings
     def m_parts(a):
@@ -542,6 +574,12 @@ try:
             chk('innermost binding after a rejected set!', v.value, 21)
         chk('outer binding after the inner form was left', v.value, 10)
     chk('root after all forms were left', v.value, 0)
+    # re-interning a dynamic Var while it is thread-bound (what re-evaluating its `def` does) keeps the binding
+    with rt.bindings({w: 'w-bound'}):
+        rt.Var.intern(ns, sym.symbol('*w*'), 'w-root2', dynamic=True)
+        chk('a Var re-defined while bound is still bound', w.value, 'w-bound')
+    chk('... and has the new root afterwards', w.value, 'w-root2')
+    rt.Var.intern(ns, sym.symbol('*w*'), 'w-root', dynamic=True)
     chk('other root', w.value, 'w-root')
 except BaseException as e:
     bad.append('unexpected %s: %s' % (type(e).__name__, e))
